@@ -67,7 +67,8 @@ def rule_constructors(ctx):
             for x, s in ta:
                 e = fn.expr_of_operand(s["rv"]["ops"][0])
                 calls = [str(y[1]) for y in walk(e) if y[0] == "call"]
-                allowed = ("as_bytes", "to_owned", "into_boxed_str", "ToOwned", "into", "deref", "borrow")
+                allowed = ("as_bytes", "to_owned", "into_boxed_str", "ToOwned", "into", "deref", "borrow", "From<&str> for std::boxed::Box<str>",
+                           "From<&str> for std::string::String", "From<std::string::String> for std::boxed::Box<str>")
                 bad = [c for c in calls if not any(a in c for a in allowed)]
                 leaf_ok = any(y[0] == "arg" for y in walk(e))
                 if bad or not leaf_ok:
@@ -233,54 +234,85 @@ def rule_accessors(ctx):
                 ctx.ok(site(fn, sb), "%s::%s: both variants answer with their payload's %s()" % (ty.split("::")[1], m, m))
             else:
                 ctx.violation("%s::%s|arms|1" % (ty, m), site(fn, sb), "variants answer differently: %s" % cal)
-    # slice family: same start/end computation in all four bodies
-    from cfg import Poly, poly_of
-    forms = {}
+    # slice family: start/end of the index range as functions of the two Bound variants, per decision path
+    # (Bound: Included=0, Excluded=1, Unbounded=2); helpers, `.cloned()`, u32 widening all reduce to the same table
+    from cfg import Poly, poly_of, decision_paths
+    bad = {}
     for name in ("utf32_str::Utf32Str::<'a>::slice", "utf32_str::Utf32Str::<'a>::slice_u32", "utf32_str::Utf32String::slice", "utf32_str::Utf32String::slice_u32"):
         fn = get_fn(facts, M, name)
-        # bounds: switch on discriminant of start_bound()/end_bound() results
-        sig = []
-        for which in ("start_bound", "end_bound"):
-            cb = [(bi, t) for bi, t in fn.calls(lambda t: callee(t).endswith("::" + which) or str(t.get("fn")).endswith("::" + which))]
-            if len(cb) != 1:
-                sig.append((which, "?"))
+
+        def bound_call(x):
+            """start_bound()/end_bound() call behind clones/refs -> 'S' / 'E'"""
+            while isinstance(x, tuple) and x and (x[0] in ("ref", "deref", "cast") or (x[0] == "call" and str(x[1]).rsplit("::", 1)[-1] in ("cloned", "copied"))):
+                x = x[2] if x[0] == "cast" else (x[2][0] if x[0] == "call" else x[1])
+            if isinstance(x, tuple) and x and x[0] == "call":
+                nm = str(x[3] or x[1])
+                if nm.endswith("::start_bound"):
+                    return "S"
+                if nm.endswith("::end_bound"):
+                    return "E"
+            return None
+
+        def atomize(x):
+            x = strip_casts(x)
+            while x[0] in ("ref", "deref"):
+                x = strip_casts(x[1])
+            if x[0] == "field" and x[2] == "0":
+                inner = x[1]
+                while inner[0] in ("ref", "deref"):
+                    inner = inner[1]
+                if inner[0] == "downcast":
+                    w = bound_call(inner[1])
+                    if w:
+                        return w
+            if x[0] == "call" and str(x[1]).endswith("::len"):
+                return "LEN"
+            return None
+
+        seen = set()
+        problems = []
+        try:
+            paths = decision_paths(fn)
+        except Inconclusive as ex:
+            bad[name] = "not loop-free: %s" % ex
+            continue
+        for conds, res in paths:
+            k = {}
+            for d, chosen, allv in conds:
+                if d[0] == "discr":
+                    w = bound_call(d[1])
+                    if w:
+                        if chosen is not None:
+                            k[w] = chosen
+                        else:
+                            rest = [v for v in (0, 1, 2) if v not in allv]
+                            if len(rest) == 1:
+                                k[w] = rest[0]
+            if "S" not in k or "E" not in k or res is None:
                 continue
-            bi, t = cb[0]
-            sw = fn.blocks[t["target"]]["term"]
-            # may pass through a discriminant statement in the same block
-            if sw["k"] != "switch":
-                sig.append((which, "?"))
+            rng = [x for x in walk(res) if x[0] == "agg" and str(x[1]).endswith("Range::Range")]
+            if not rng:
+                problems.append("no index range on the path (start %s, end %s)" % (k["S"], k["E"]))
                 continue
-            arms = {}
-            for v, bb in sw["arms"] + [[None, sw["otherwise"]]]:
-                if fn.blocks[bb]["term"]["k"] == "unreachable":
-                    continue
-                # find the value assigned to the start/end local in this arm: look for +1
-                plus1 = False
-                uses_len = False
-                for x in fn.reach_from(bb):
-                    if not fn.must_pass(x, via_edges=[(t["target"], bb)]):
-                        continue
-                    tt = fn.blocks[x]["term"]
-                    if tt["k"] == "assert" and tt.get("kind") == "Overflow" and tt["op"] == "Add":
-                        b_ = fn.expr_of_operand(tt["b"])
-                        if b_[0] == "const" and b_[1] == 1:
-                            plus1 = True
-                    if tt["k"] == "call" and callee(tt).endswith("::len"):
-                        uses_len = True
-                arms[v] = "+1" if plus1 else ("len" if uses_len else "id")
-            sig.append((which, tuple(sorted((str(k), v) for k, v in arms.items()))))
-        forms[name] = tuple(sig)
-    vals = set(forms.values())
+            st = poly_of(rng[0][2]["start"], atomize)
+            en = poly_of(rng[0][2]["end"], atomize)
+            want_s = {0: Poly.atom("S"), 1: Poly.atom("S") + Poly.const(1), 2: Poly.const(0)}[k["S"]]
+            want_e = {0: Poly.atom("E") + Poly.const(1), 1: Poly.atom("E"), 2: Poly.atom("LEN")}[k["E"]]
+            seen.add((k["S"], k["E"]))
+            if st != want_s:
+                problems.append("start bound variant %d is translated to %s, expected %s" % (k["S"], st, want_s))
+            if en != want_e:
+                problems.append("end bound variant %d is translated to %s, expected %s" % (k["E"], en, want_e))
+        if len(seen) != 9 and not problems:
+            problems.append("only %d of the 9 (start, end) bound combinations are handled" % len(seen))
+        if problems:
+            bad[name] = "; ".join(sorted(set(problems))[:3])
     n += 1
-    # Bound: Included=0, Excluded=1, Unbounded=2
-    expected = (("start_bound", (("0", "id"), ("1", "+1"), ("2", "id"))), ("end_bound", (("0", "+1"), ("1", "id"), ("2", "len"))))
-    bad = {k: v for k, v in forms.items() if v != expected}
     if not bad:
-        ctx.ok("utf32_str.rs slice family", "slice / slice_u32 on Utf32Str and Utf32String compute start (Excluded ⇒ +1) and end (Included ⇒ +1, Unbounded ⇒ len) identically")
+        ctx.ok("utf32_str.rs slice family", "slice / slice_u32 on Utf32Str and Utf32String: start (Excluded ⇒ +1, Unbounded ⇒ 0) and end (Included ⇒ +1, Unbounded ⇒ len) on all 9 bound combinations")
     else:
-        for k, v in bad.items():
-            ctx.violation("%s|bounds|1" % k, k, "range bounds are translated as %s; the siblings use %s" % (v, expected))
+        for k_, v in bad.items():
+            ctx.violation("%s|bounds|1" % k_, k_, "range bounds are not translated as documented: %s" % v)
     ctx.floor("accessor groups", n, 5)
     # get/first/last/chars: both variants index the same position
     for m, idx in (("get", None), ("first", 0)):
